@@ -18,6 +18,7 @@
  *   R <depid> | <ok|other>                     runtime deletion of an A-created dependency through ConfigObjectUtility::DeleteObject
  *   G | <g0>;<g1>;...;reg=<k>                  composition of GetDependencyGroups() per node: 0 or groups joined by '+', one group =
  *                                              <name|->/<parent.period.filter.ignoreSoft,...>/<own dep ids>/<GetDependenciesCount()>
+ *                                              (keys = MakeCompositeKeyFor over this node's own dependencies in the group)
  *   E <reason>                                 malformed op (bad reference, duplicate id ...): rest of the case is skipped
  *
  * A rejected L that is not the first L of its case does not end the case (nothing of the batch is live afterwards), unless the
@@ -50,12 +51,7 @@
 using namespace icinga;
 using namespace vh;
 
-/* the tag must live in namespace vh: the friend definition of Rob<> is a member of that namespace */
-namespace vh {
-VH_ROB_MEMBER(RobServiceHost, Service, Host::Ptr, m_Host)
-VH_ROB_MEMBER(RobGroupMembers, DependencyGroup, DependencyGroup::MembersMap, m_Members)
-VH_ROB_MEMBER(RobGroupMutex, DependencyGroup, std::mutex, m_Mutex)
-}
+/* Only public API is used (no private-member access): a rename of a private member must not break this harness. */
 
 static const double kNow = 1000000.0;
 static const double kValidEnd = 2000000.0;
@@ -291,6 +287,17 @@ struct Engine {
 				}
 			}
 		}
+		if (!cfg) {
+			/* undo Register()/AddService(): no name stays behind and the host <-> service reference cycle is broken */
+			for (Node& n : nodes) {
+				if (!n.obj)
+					continue;
+				if (n.svc)
+					static_pointer_cast<Host>(nodes[n.host].obj)->RemoveService(static_pointer_cast<Service>(n.obj));
+				else
+					n.obj->Unregister();
+			}
+		}
 		deps.clear();
 		nodes.clear();
 		buf.clear();
@@ -335,13 +342,18 @@ struct Engine {
 			if (!svc) {
 				Host::Ptr h = new Host();
 				h->SetName(HostName(id));
+				/* registered (and unregistered at case end) so that Service::OnAllConfigLoaded finds it by name */
+				h->Register();
 				n.obj = h;
 			} else {
 				Service::Ptr s = new Service();
 				s->SetHostName(HostName(host));
 				s->SetShortName(ShortName(id));
 				s->SetName(HostName(host) + "!" + ShortName(id));
-				s.get()->*get(RobServiceHost()) = static_pointer_cast<Host>(nodes[host].obj);
+				/* the production way to bind a service to its host: m_Host = Host::GetByName(host_name); host->AddService() */
+				static_pointer_cast<ConfigObject>(s)->OnAllConfigLoaded();
+				if (s->GetHost() != nodes[host].obj)
+					Die("service host not resolved");
 				n.obj = s;
 			}
 			n.obj->PushDependencyGroupsToRegistry();
@@ -771,20 +783,19 @@ struct Engine {
 			std::vector<std::string> gs;
 			for (const DependencyGroup::Ptr& g : n.obj->GetDependencyGroups()) {
 				std::vector<std::array<int, 4>> keys;
-				{
-					std::lock_guard<std::mutex> lock((*g).*get(RobGroupMutex()));
-					for (const auto& kv : (*g).*get(RobGroupMembers())) {
-						Checkable *parent; TimePeriod *tp; int filter; bool ign;
-						std::tie(parent, tp, filter, ign) = kv.first;
-						auto ni = nodeId.find(parent);
-						int per = tp ? unknown : -1;
-						for (int i = 0; i < 4; i++)
-							if (tp && l_Pool[i].get() == tp)
-								per = i;
-						keys.push_back({ ni == nodeId.end() ? unknown : ni->second, per, filter, ign ? 1 : 0 });
-					}
+				/* the composite keys of THIS node's dependencies in the group (public API only) */
+				for (const Dependency::Ptr& dep : g->GetDependenciesForChild(n.obj.get())) {
+					Checkable *parent; TimePeriod *tp; int filter; bool ign;
+					std::tie(parent, tp, filter, ign) = DependencyGroup::MakeCompositeKeyFor(dep);
+					auto ni = nodeId.find(parent);
+					int per = tp ? unknown : -1;
+					for (int i = 0; i < 4; i++)
+						if (tp && l_Pool[i].get() == tp)
+							per = i;
+					keys.push_back({ ni == nodeId.end() ? unknown : ni->second, per, filter, ign ? 1 : 0 });
 				}
 				std::sort(keys.begin(), keys.end());
+				keys.erase(std::unique(keys.begin(), keys.end()), keys.end());
 				std::string s = g->GetRedundancyGroupName().IsEmpty() ? std::string("-") : std::string(g->GetRedundancyGroupName().GetData());
 				s += "/";
 				for (size_t i = 0; i < keys.size(); i++) {
